@@ -47,6 +47,8 @@ func storeValue(id string) []byte {
 		storeVals["d3"] = mk([3]string{"sha256", "o1", "h1"}, [3]string{"sha256", "o2", "h1"}, [3]string{"sha256", "o1", "h2"})
 		storeVals["dc"] = mk([3]string{"x509", "o1", "c1"})
 		storeVals["d1c"] = append(append([]byte{}, storeVals["d1"]...), storeVals["dc"]...) // d1 is a proper prefix
+		storeVals["big"] = prbytes("big-value", 20000) // larger than any buffered-writer default (C11: still exactly one write)
+		storeVals["b4093"] = prbytes("b4093", 4093)
 		storeVals["d2"] = mk([3]string{"sha256", "o2", "h2"}, [3]string{"sha256", "o1", "h2"})
 	}
 	return storeVals[id]
